@@ -290,5 +290,19 @@ impl GenericsAnalyzer {
 fn extract_trait_bounds(
     bounds: &syn::punctuated::Punctuated<syn::TypeParamBound, syn::token::Plus>,
 ) -> Vec<syn::TypeParamBound> {
-    bounds.iter().cloned().collect()
+    bounds
+        .iter()
+        // `?Sized` relaxes the declaration of a type parameter,
+        // it is not something to require from the implementing type
+        .filter(|bound| {
+            !matches!(
+                bound,
+                syn::TypeParamBound::Trait(syn::TraitBound {
+                    modifier: syn::TraitBoundModifier::Maybe(_),
+                    ..
+                })
+            )
+        })
+        .cloned()
+        .collect()
 }
